@@ -336,18 +336,18 @@ EXTRA_RULE = {
            "one in four runs as the second member of a collection (UnmarshalCollection) whose first member is of any type; a bytes attribute must "
            "re-marshal as a JSON string; every accepted value and resource is overwritten in place afterwards (pointers, slices); payloads with an unknown or missing type, ill meta/links members, empty or missing IDs in to-many lists.",
     "C07": SCHEMA_HISTORY + " Sort rules with several leading dashes and other decorations (up to 12 rules), fields lists naming fields of other types, "
-           "filter labels in any JSON escape style; two names differing by one leading character are sorted on longer first; a name from the far end of the sorted field list given twice.",
+           "filter labels in any JSON escape style; two names differing by one leading character are sorted on longer first; a name from the far end of the sorted field list given twice; page values spelled as floats, hex, with underscores or non-ASCII digits.",
     "C08": SCHEMA_HISTORY + " Empty filter= / sort= / include= / fields[t]= among the accepted parameters; filter labels in any JSON escape style incl. "
            "whitespace + '{'; collations on combining filter nodes, whose members come in any order; filter trees compared member by member. The recorded finding fields-param-truncated is "
            "excused only when the text is read exactly like the same text without the truncated parameter. One case in twenty first prints a URL on which the pinned String panics (recovered).",
     "C09": " Attribute names with dashes, underscores, non-ASCII letters and 'id' inside; one ID list, filter and rules slice per case handed to every "
-           "Range call; every page returned during a case is read again at the end, after two unrelated Range calls on the same collection; collections of up to 70 members, an empty ID, instants far apart, byte strings of different lengths.",
+           "Range call; every page returned during a case is read again at the end, after two unrelated Range calls on the same collection; collections of up to 70 members, an empty ID, instants far apart, byte strings of different lengths; every other soft collection has a past (members added in between and removed again); upper-case twins of attribute names.",
     "C10": " One built filter is evaluated, some of its leaf values are replaced (in place for lists of equal length) and it is evaluated again; leaf "
            "filters whose value is the one read from the resource itself (same pointer / slice); filters that use one sub-filter object at several "
            "places; unknown operators that look like known ones (==, !==, <==, =<, <>, '', IN, Has); ordering operators on to-one relationships (lexicographic), zero-prefixed and neighbouring IDs; to-many sets that read alike when joined with commas; wide (60-140 groups) and deep (60-140 levels) trees around a generated one; a soft resource nobody has read yet.",
     "C11": SCHEMA_HISTORY + " Documents as in C02; included IDs chosen so that type+ID (either order) coincide with an earlier included resource when the "
            "type names allow it; after the repeated marshals the lists of the same document and URL objects are permuted in place and marshaled again; "
-           "the observable state includes page parameters, filter label and filter tree as they read; one document in four may include different types under one ID (up to 12 included, equal-ID members keep the caller's order in the twin).",
+           "the observable state includes page parameters, filter label and filter tree as they read, and the relationship-data lists of document and URL as multisets; one document in four may include different types under one ID (up to 12 included, equal-ID members keep the caller's order in the twin).",
     "C12": SCHEMA_HISTORY + " Further operation: New() on schema.Types[i] itself. At most one relationship with an empty FromType. Unmarshal results are "
            "kept and re-read when a goroutine's list is done; a result's resource-level meta must be empty or the request's own. Operations marshal-softcol and roundtrip-document; a goroutine now and then repeats the request text of another one; large schemas of 8-22 types with dangling relationships; a run that does not finish in 60 s is a violation (deadlock) with its history printed.",
     "C13": SCHEMA_HISTORY + " Trailing text after the resource object; to-many lists of the partial and the full result compared in order; unknown "
@@ -355,14 +355,14 @@ EXTRA_RULE = {
     "C14": " Names include a_b / a-b types, non-ASCII names, two-way relationships whose ends concatenate to the same string, invalid kinds next to the "
            "valid range and extreme integers; a failed edit is also compared with a snapshot that tells nil maps from empty ones; lookups are made after "
            "two edits in three only; type names differing by case only.",
-    "C15": " One schema in four is built through a throw-away type, one in six has its types taken out and put back after a few lookups.",
+    "C15": " One schema in eight is dense (few types, a pool of 14 relationship names, up to 50 edges, repeated inverse names). One schema in four is built through a throw-away type, one in six has its types taken out and put back after a few lookups.",
     "C16": " The inverse is also computed independently (both halves swapped); relationships with the same type and name on both ends are included. "
            "Schemas are built a third way: types first, then one relationship or pair at a time through AddRel / AddTwoWayRel in any order, with or "
            "without a Rels() query between edits. Concatenation twins in generated schemas; one schema in five is dense (3-6 types, up to 45 edges: lists of more than a dozen entries).",
     "C17": " Actions also include Equal/EqualStrict calls between Set and Get, Set(bytes, []byte(nil)), attributes whose names differ only by letter "
-           "case; equality pairs include to-many lists that print alike, null against a pointer to the zero value, one empty ID, the same attribute name with another kind and a look-alike value; struct types with a defined string type as ID, embedded structs with tagged fields, shadow fields, now and then 62-72 attributes (then compared in full after one step in eight and at the end).",
+           "case; equality pairs include to-many lists that print alike, null against a pointer to the zero value, one empty ID, the same attribute name with another kind and a look-alike value, the inverse end of a same-type pair; type names beginning like tag keywords (relatives, rel-x, attrs); struct types with a defined string type as ID, embedded structs with tagged fields, shadow fields, now and then 62-72 attributes (then compared in full after one step in eight and at the end).",
     "C18": " Slices with spare capacity at copy time and append-through-Get operations on both sides; Type.Copy of soft and struct-backed types, "
-           "possibly used (New) before the copy, with New on either side afterwards; Fields() and the content of the type compared; types as in C17.",
+           "possibly used (New) before the copy, with New on either side afterwards; Fields() and the content of the type compared; types as in C17; every history ends with one more New or Copy from the source, which must be of the source's type as it is then.",
     "C19": " Kinds include nullable bytes/time/bool; IDs include the empty ID; SetType may retarget a kept relationship; members are read after two "
            "operations in three only (what a stored resource exposes must not depend on reads in between); one history in four adds 10-45 members at once and may remove many; several members may share one *Type.",
     "C20": " Tags rel,,inv and rel,,; json names differing only by case; after everything else the built type is edited and BuildType is called again; interface-typed fields, embedded structs with tagged fields, now and then 65-68 fields.",
